@@ -83,6 +83,18 @@ theorem gumbel_generic_ppf_correct {θ ε : ℝ} (hθ : 1 < θ) (brent : ℝ →
     refine ⟨brent (xs[i]).1 (xs[i]).2, by simp [hi], ?_⟩
     exact hroot (xs[i]) (List.getElem_mem hi)
 
+/-- Gumbel θ = 1 (independence shortcut): `percent_point(y, v) = y`, and that is the inverse of the
+(repaired) conditional CDF `h(u, v) = u` — element-wise, for every batch, without the root finder. -/
+theorem gumbel_ppf_theta_one (brent : ℝ → ℝ → ℝ) (xs : List (ℝ × ℝ)) :
+    Gen.Gumbel.ppf (1 : ℝ) brent xs = .ok (xs.map fun p => p.1) ∧
+      ∀ y v : ℝ, Gen.Gumbel.h (1 : ℝ) [(y, v)] = .ok [y] := by
+  constructor
+  · unfold Gen.Gumbel.ppf
+    rw [Gumbel.checkFit_ok le_rfl]
+    simp [Gen.Gumbel.ppf_leaf0]
+  · intro y v
+    rw [Gumbel.h_theta_one_rowwise]; simp
+
 /-- Bracket validity for Frank: `h(0,v) = 0 < y < 1 = h(1,v)` and `h(·,v)` is continuous and strictly
 increasing on `[0,1]`, so a root exists in `(0,1)` and is unique; that the root lies above the
 code's lower bracket end `ε = 2⁻²³` (i.e. `h(ε,v) ≤ y`) is the numeric clause left `_partial`
